@@ -167,6 +167,17 @@ theorem C02_structural_step_preserves {V : Type} (d : Opt.DagRec) (o : Opt.OpRec
   intro k hk
   exact C02_fuse_step_preserves pre s post _ newSources base hok k (hreq _ hk)
 
+/-- (k) The structural rewrite itself never drops a requested array: whatever `fuse_predecessors` does to the record
+dag, every array of `array_names` that was produced by some op is still produced afterwards (record-level counterpart
+of (d), for the function that is compared with the real `fuse_predecessors`). -/
+theorem C02_fusePreds_keeps_requested (d d' : Opt.DagRec) (name : String) (ps : Opt.Params) (a : String)
+    (hnames : ∀ r₁ ∈ d.ops, ∀ r₂ ∈ d.ops, r₁.name = r₂.name → r₁ = r₂)
+    (ha : ps.arrayNames.contains a = true)
+    (h : Opt.fusePreds d name ps = some d')
+    (hp : ∃ q ∈ d.ops, q.outputs.contains a = true) :
+    ∃ q' ∈ d'.ops, q'.outputs.contains a = true :=
+  Opt.fusePreds_keeps_requested d d' name ps a hnames ha h hp
+
 /-! Non-vacuity: a three-op chain `x → a → b` with `a` fused into `b` satisfies `StepOK`. -/
 
 def opA : Op Nat :=
@@ -221,5 +232,7 @@ example : (Opt.poa recDag recB).map (fun ts => ts.map (fun t => (t.1.name, t.2.1
 example : Opt.Describes recA opA ∧ Opt.Describes recB opB := by
   refine ⟨⟨rfl, rfl, ?_⟩, ⟨rfl, rfl, ?_⟩⟩ <;> intro m hm <;> simp [opA, opB] at hm <;> subst hm <;> decide
 example : Opt.removedSel (V := Nat) [(recA, "a", true)] opA = true := by decide
+example : (Opt.fusePreds recDag "op-b" { arrayNames := ["b"] }).map (fun d => d.ops.map (fun o => (o.name, o.outputs)))
+    = some [("op-x", ["x"]), ("op-b", ["b"])] := by decide
 
 end Cubed.C02
